@@ -60,7 +60,7 @@ func c12Case(r *core.Run, idx int, rng *rand.Rand) {
 	ref := refAttributes(u)
 	for i := rng.Intn(7); i > 0; i-- {
 		var a spsim.QAttr
-		switch rng.Intn(7) {
+		switch rng.Intn(8) {
 		case 0, 1: // matching
 			x := ref[rng.Intn(len(ref))]
 			a = spsim.QAttr{Name: x.Name, NameFormat: x.Format}
@@ -84,6 +84,8 @@ func c12Case(r *core.Run, idx int, rng *rand.Rand) {
 				a.Name = full
 				a.NameFormat = ""
 			}
+		case 6: // designators without a usable name (must match nothing; they are not "no attribute requested")
+			a = spsim.QAttr{Name: "", NameFormat: []string{basicFormat, ""}[rng.Intn(2)]}
 		default: // case / blank near-misses
 			x := ref[rng.Intn(len(ref))]
 			a = spsim.QAttr{Name: []string{strings.ToLower(x.Name), x.Name + " ", " " + x.Name}[rng.Intn(3)], NameFormat: x.Format}
@@ -92,6 +94,12 @@ func c12Case(r *core.Run, idx int, rng *rand.Rand) {
 			a.Friendly = "fr" + plainString(rng, 3)
 		}
 		q.Attrs = append(q.Attrs, a)
+	}
+	if rng.Intn(12) == 0 {
+		q.Attrs = nil
+		for i := 1 + rng.Intn(3); i > 0; i-- {
+			q.Attrs = append(q.Attrs, spsim.QAttr{Name: "", NameFormat: []string{basicFormat, "", "urn:x"}[rng.Intn(3)]})
+		}
 	}
 	// labels
 	issuerReg, dest, sig, subj := true, "absent", "none", "known"
